@@ -77,7 +77,7 @@ def build_and_run(unit_name, canary=False, rlimit=None, seed=None, suffix='', re
     res = None
     r5_rounds = 0
     for _ in range(8):
-        res = run_verus(path, rlimit=rlimit, seed=seed)
+        res = run_verus(path, rlimit=(rlimit if not canary else 5), seed=seed, multiple_errors=(50 if not canary else 0))
         if r5_fix(path, res, unit):
             r5_rounds += 1
             continue
@@ -102,5 +102,19 @@ def obligation_id(unit, d):
         if s2.get('text'):
             t = s2['text'][0]
             frag = t['text'][t['highlight_start'] - 1:t['highlight_end'] - 1] if len(s2['text']) == 1 else ' '.join(x['text'].strip() for x in s2['text'])
-            sec += ' @ ' + ' '.join(frag.split())
-    return '%s::%s :: %s :: %s%s' % (unit.name, label, d.kind, line_txt, sec), it
+            frag = ' '.join(frag.split())
+            if len(frag) > 70:
+                frag = (s2.get('label') or 'span') + ': ' + frag[:40] + '..'
+            sec += ' @ ' + frag
+    ordinal = ''
+    if it is not None and sp and line_txt:
+        # which textual occurrence of this expression inside the function (stable under unrelated edits)
+        first = it.first_gen_line
+        pre = '\n'.join(unit.gen_lines[first - 1:sp['line_start'] - 1])
+        if sp.get('text'):
+            pre += '\n' + sp['text'][0]['text'][:sp['text'][0]['highlight_start'] - 1]
+        norm_pre = ' '.join(pre.split())
+        k = norm_pre.count(line_txt)
+        if k > 0:
+            ordinal = ' #%d' % (k + 1)
+    return '%s::%s :: %s :: %s%s%s' % (unit.name, label, d.kind, line_txt, ordinal, sec), it
